@@ -476,12 +476,12 @@ class Stub(Spec):
           'use_references', 'raise_error', 'raise_warning', 'units', 'rev',
           'ignore_q_elec')
 
-    def __init__(self, name, methods, positive=('get_q',), **attrs):
-        self.name = name
+    def __init__(self, stub_name, methods, positive=('get_q',), **attrs):
+        self.name = stub_name
         self.methods = list(methods)
         self.positive = tuple(positive)
         self.attrs = dict(attrs)
-        self.attrs.setdefault('name', name)
+        self.attrs.setdefault('name', stub_name)
 
     def sym(self, B, name):
         attrs = {k: (v.sym(B, '%s.%s' % (name, k)) if isinstance(v, Spec)
@@ -554,25 +554,38 @@ class IdText(Spec):
 class Token(Spec):
     """an unknown separator-free word of symbolic length in [lo, hi]"""
 
-    def __init__(self, lo=1, hi=30):
+    def __init__(self, lo=1, hi=30, alphabet=None, excl=None,
+                 first_nondigit=False):
         self.lo, self.hi = lo, hi
+        self.alphabet = alphabet
+        self.excl = excl
+        self.first_nondigit = first_nondigit
 
     def sym(self, B, name):
         from .sstr import SStr, Tok
         n = B.leaf(name + '.len', 'int', Int(self.lo, self.hi))
         B.assume(n.t >= self.lo)
         B.assume(n.t <= self.hi)
-        return SStr([Tok(name, n)])
+        return SStr([Tok(name, n, self.excl, self.first_nondigit)])
 
     def sample(self, rng, name, asg):
         asg[name + '.len'] = rng.randint(self.lo, self.hi)
 
     def desc(self, name, asg):
+        import hashlib
         L = int(asg[name + '.len'])
-        alphabet = 'abcdefghijklmnopqrstuvwxyzABCDEFGHIJKLMNOPQRSTUVWXYZ0123456789_()*-+=.'
-        h = abs(hash(name)) if False else sum(ord(c) for c in name)
-        return {'k': 'const', 'v': ''.join(alphabet[(h + 7 * k) % len(alphabet)]
-                                           for k in range(L))}
+        alphabet = self.alphabet or ('abcdefghijklmnopqrstuvwxyzABCDEFGHIJKLMNOP'
+                                     'QRSTUVWXYZ0123456789_()*-+=.')
+        letters = [ch for ch in alphabet if ch.isalpha()] or list(alphabet)
+        dig = hashlib.sha256(name.encode()).digest()
+        while len(dig) < L + 1:
+            dig += hashlib.sha256(dig).digest()
+        chars = []
+        for k in range(L):
+            pool = letters if (k == 0 and self.first_nondigit) else alphabet
+            chars.append(pool[dig[k] % len(pool)])
+        txt = ''.join(chars)
+        return {'k': 'const', 'v': txt}
 
     def leaf_names(self, name):
         return [name + '.len']
